@@ -1,5 +1,6 @@
 """C19 - samplers stay on their domain; Bezier evaluation matches the Bernstein form."""
 import math
+import random
 import numpy as np
 from hypothesis import strategies as st
 from vlib.runner import SubCheck
@@ -38,15 +39,34 @@ def sig6(x):
     return float(f"{x:.6g}")
 
 
-def logmag(lo=-3.0, hi=3.0):
-    return st.floats(lo, hi, allow_nan=False).map(lambda e: sig6(10.0 ** e))
+SPECIAL_COUNTS = [27, 8, 64, 100, 9, 16, 243, 256, 343, 400, 32, 4, 3, 2, 1, 0]
 
 
-def signed_logmag():
-    return st.tuples(logmag(), st.booleans()).map(lambda t: t[0] if t[1] else -t[0])
+def mixer(draw):
+    """Categories, flags and most magnitudes are derived from ONE drawn integer (the first draw of every case) through a PRNG.
+    Hypothesis' own choices are strongly biased towards the first / smallest alternative and towards 0 / 0.0 for the later draws of a
+    composite (measured with --collect: radius 10**0 in 36 % of the cases, n = 0 in 40 %, all-zero control nets), which starves the
+    classes this property is about.  Sizes stay (partly) ordinary draws so that failing cases still shrink."""
+    return random.Random(draw(st.integers(0, 2 ** 32)))
 
 
-COUNTS = st.one_of(st.integers(0, 400), st.integers(0, 40), st.sampled_from([0, 1, 2, 3, 4, 8, 9, 16, 27, 32, 64, 100, 243, 256, 343, 400]))
+def rlog(rnd, lo=-3.0, hi=3.0):
+    return sig6(10.0 ** rnd.uniform(lo, hi))
+
+
+def rslog(rnd, lo=-3.0, hi=3.0):
+    return rlog(rnd, lo, hi) * rnd.choice([-1.0, 1.0])
+
+
+def draw_count(draw, rnd):
+    c = rnd.random()
+    if c < 0.15:
+        return rnd.choice(SPECIAL_COUNTS)
+    if c < 0.5:
+        return rnd.randint(0, 400)
+    if c < 0.65:
+        return rnd.randint(0, 12)
+    return draw(st.integers(0, 400))
 
 
 def expect_raises(ctx, sig, exc_types, what, f, *a, **kw):
@@ -99,40 +119,39 @@ def grid_resolution(n, d):
 
 @st.composite
 def box_case(draw):
-    d = draw(st.integers(1, 5))
-    kind = draw(st.sampled_from(["unit", "centered", "int", "general", "general", "thin", "far", "empty"]))
+    rnd = mixer(draw)
+    d = rnd.randint(1, 5)
+    kind = rnd.choice(["unit", "centered", "int", "int", "general", "general", "general", "thin", "far", "far", "empty"])
     if kind == "unit":
         lo, hi = [0.0] * d, [1.0] * d
     elif kind == "centered":
         lo, hi = [-0.5] * d, [0.5] * d
     elif kind == "int":
-        lo = [draw(st.integers(-5, 5)) for _ in range(d)]
-        hi = [l + draw(st.integers(1, 6)) for l in lo]
-        if draw(st.booleans()):
+        lo = [rnd.randint(-5, 5) for _ in range(d)]
+        hi = [l + rnd.randint(1, 6) for l in lo]
+        if rnd.random() < 0.5:
             lo, hi = [float(x) for x in lo], [float(x) for x in hi]
-    elif kind == "general":
-        lo = [draw(st.one_of(st.just(0.0), signed_logmag())) for _ in range(d)]
-        hi = [sig6(l + draw(logmag())) for l in lo]
-    elif kind == "thin":
-        lo = [draw(st.one_of(st.just(0.0), signed_logmag())) for _ in range(d)]
-        hi = [sig6(l + draw(logmag())) for l in lo]
-        k = draw(st.integers(0, d - 1))
-        hi[k] = lo[k] + max(abs(lo[k]), 1.0) * 1e-6
+    elif kind in ("general", "thin"):
+        lo = [0.0 if rnd.random() < 0.15 else rslog(rnd) for _ in range(d)]
+        hi = [sig6(l + rlog(rnd)) for l in lo]
+        if kind == "thin":
+            k = rnd.randrange(d)
+            hi[k] = lo[k] + max(abs(lo[k]), 1.0) * 1e-6
     elif kind == "far":
-        c = draw(st.sampled_from([1e3, -1e3, 500.0]))
-        lo = [sig6(c + draw(st.floats(-1, 1))) for _ in range(d)]
-        hi = [sig6(l + draw(logmag(-2, 1))) for l in lo]
+        c = rnd.choice([1e3, -1e3, 500.0])
+        lo = [sig6(c + rnd.uniform(-1, 1)) for _ in range(d)]
+        hi = [sig6(l + rlog(rnd, -2, 1)) for l in lo]
     else:  # empty: some axis has mini >= maxi
-        lo = [float(draw(st.integers(-3, 3))) for _ in range(d)]
+        lo = [float(rnd.randint(-3, 3)) for _ in range(d)]
         hi = [l + 1.0 for l in lo]
-        k = draw(st.integers(0, d - 1))
-        hi[k] = lo[k] - draw(st.sampled_from([0.0, 1.0, 1e-3]))
+        k = rnd.randrange(d)
+        hi[k] = lo[k] - rnd.choice([0.0, 1.0, 1e-3])
     if kind != "empty":
         for k in range(d):
             if not hi[k] > lo[k]:
                 hi[k] = lo[k] + 1.0
-    return {"lo": lo, "hi": hi, "kind": kind, "mode": draw(st.sampled_from(["uniform", "grid"])), "n": draw(COUNTS),
-            "pc": draw(st.integers(0, 2)) == 0, "ctor": draw(st.sampled_from(["tuple", "list", "numpy"]))}
+    return {"lo": lo, "hi": hi, "kind": kind, "mode": rnd.choice(["uniform", "grid"]), "n": draw_count(draw, rnd),
+            "pc": rnd.random() < 0.3, "ctor": rnd.choice(["tuple", "list", "numpy"])}
 
 
 def fn_box(case, ctx):
@@ -185,6 +204,12 @@ def fn_box(case, ctx):
                      f"{what}: {int(out.sum())} of {expected} points outside the box; e.g. "
                      f"{P[out][:1].tolist()} ; sample min {P.min(axis=0).tolist()} max {P.max(axis=0).tolist()}"):
         return
+    if mode == "uniform" and expected >= 100:
+        # docstring: "uniformly at random inside" the box. 100 independent uniform draws all fall into one half-length sub-interval of an
+        # axis with probability < 1e-27: a sample spanning less than half of an axis is not a uniform sample of *this* box.
+        spread = (P.max(axis=0) - P.min(axis=0)) / (H - L)
+        ctx.check(bool(np.all(spread >= 0.5)), "box:uniform-spread",
+                  f"{what}: the {expected} points span only the fractions {spread.tolist()} of the box sides")
     if mode == "grid" and r >= 2:
         S = H - L
         idx = np.rint((P - L) / S * (r - 1)).astype(int)
@@ -212,16 +237,29 @@ def fn_box_mode(case, ctx):
 
 # =============================================================================================== sphere / ball
 
-CENTER_COMP = st.one_of(st.just(0.0), st.integers(-3, 3).map(float), signed_logmag(), signed_logmag())
-RADIUS = st.one_of(st.just(1.0), st.sampled_from([0.5, 2.0, 8.0, 1e-3, 1e3]), logmag(), logmag(), logmag())
+def draw_center(draw, rnd):
+    c = rnd.random()
+    if c < 0.15:
+        return [0.0, 0.0, 0.0]
+    if c < 0.3:
+        return [float(rnd.randint(-3, 3)) for _ in range(3)]
+    return [rslog(rnd) if rnd.random() < 0.85 else 0.0 for _ in range(3)]
+
+
+def draw_radius(draw, rnd):
+    c = rnd.random()
+    if c < 0.08:
+        return 1.0
+    if c < 0.3:
+        return rnd.choice([0.5, 2.0, 8.0, 1e-3, 1e3, 0.9, 1.1])
+    return rlog(rnd)
 
 
 @st.composite
 def round_case(draw):
-    zero = draw(st.integers(0, 4)) == 0
-    c = [0.0, 0.0, 0.0] if zero else [draw(CENTER_COMP) for _ in range(3)]
-    return {"which": draw(st.sampled_from(["sphere", "ball"])), "center": c, "radius": draw(RADIUS), "n": draw(COUNTS),
-            "pc": draw(st.integers(0, 2)) == 0}
+    rnd = mixer(draw)
+    return {"which": rnd.choice(["sphere", "ball"]), "center": draw_center(draw, rnd), "radius": draw_radius(draw, rnd),
+            "n": draw_count(draw, rnd), "pc": rnd.random() < 0.3}
 
 
 def fn_round(case, ctx):
@@ -262,11 +300,11 @@ def fn_round(case, ctx):
 # =============================================================================================== polylines
 
 @st.composite
-def polylines(draw, min_edges=1):
-    n = draw(st.integers(2, 12))
-    kind = draw(st.sampled_from(["path", "cycle", "tree", "graph", "segments"]))
-    rnd = np.random.RandomState(draw(st.integers(0, 10 ** 6)))
-    planar = draw(st.integers(0, 3)) == 0
+def polylines(draw, mix, min_edges=1):
+    n = max(draw(st.integers(2, 12)), mix.choice([2, 2, 3, 4, 5, 6, 8]))
+    kind = mix.choice(["path", "cycle", "tree", "graph", "segments"])
+    rnd = np.random.RandomState(mix.randrange(2 ** 31))
+    planar = mix.random() < 0.25
     pts = []
     seen = set()
     while len(pts) < n:                      # distinct nodes of a 1000^3 lattice in the unit cube: pairwise distance >= 1e-3
@@ -293,16 +331,17 @@ def polylines(draw, min_edges=1):
         if len(E) < min_edges:
             pts.append((1001, 1001, 1001)); E.append((n - 1, n)); n += 1
     E = [[int(a), int(b)] if rnd.randint(2) else [int(b), int(a)] for a, b in E]
-    s = 10.0 ** draw(st.sampled_from([-3, -2, -1, 0, 0, 0, 1, 2, 3]))
-    off = s * draw(st.sampled_from([0.0, 0.0, 1.0, -7.5, 100.0]))
+    s = 10.0 ** mix.choice([-3, -2, -1, 0, 0, 0, 1, 2, 3])
+    off = s * mix.choice([0.0, 0.0, 1.0, -7.5, 100.0])
     V = [[sig6(x * 1e-3 * s + off) if off == 0 else float(x * 1e-3 * s + off) for x in p] for p in pts]
     return {"V": V, "E": E, "tags": ["kind=" + kind, "planar" if planar else "spatial", "scale=%g" % s, "edges=%s" % (len(E) if len(E) < 3 else ">=3")]}
 
 
 @st.composite
 def polyline_case(draw):
-    p = draw(polylines())
-    p.update({"n": draw(COUNTS), "pc": draw(st.integers(0, 2)) == 0})
+    rnd = mixer(draw)
+    p = draw(polylines(rnd))
+    p.update({"n": draw_count(draw, rnd), "pc": rnd.random() < 0.3})
     return p
 
 
@@ -345,18 +384,19 @@ def fn_polyline(case, ctx):
 # =============================================================================================== surfaces
 
 @st.composite
-def scaled_trisurf(draw, max_faces=60):
+def scaled_trisurf(draw, mix, max_faces=60):
     s = draw(G.well_shaped_trisurf(max_faces=max_faces))
-    k = 10.0 ** draw(st.sampled_from([-3, -2, -1, 0, 0, 0, 1, 2, 3]))
-    off = k * np.array(draw(st.sampled_from([[0.0, 0.0, 0.0], [0.0, 0.0, 0.0], [1.0, -2.0, 0.5], [30.0, 10.0, -20.0]])))
+    k = 10.0 ** mix.choice([-3, -2, -1, 0, 0, 0, 1, 2, 3])
+    off = k * np.array(mix.choice([[0.0, 0.0, 0.0], [0.0, 0.0, 0.0], [1.0, -2.0, 0.5], [30.0, 10.0, -20.0]]))
     V = (np.array(s["V"], dtype=float) * k + off).tolist()
     return {"V": V, "F": s["F"], "tags": s["tags"] + ["scale=%g" % k]}
 
 
 @st.composite
 def surface_case(draw):
-    s = draw(scaled_trisurf())
-    s.update({"n": draw(COUNTS), "pc": draw(st.booleans()), "normals": draw(st.booleans())})
+    rnd = mixer(draw)
+    s = draw(scaled_trisurf(rnd))
+    s.update({"n": draw_count(draw, rnd), "pc": rnd.random() < 0.5, "normals": rnd.random() < 0.6})
     return s
 
 
@@ -448,14 +488,14 @@ N_STAT = 4000
 
 
 @st.composite
-def stat_case(draw):
-    if draw(st.booleans()):
-        p = draw(polylines(min_edges=2))
-        p["kind"] = "polyline"
+def stat_case(draw, kind):
+    rnd = mixer(draw)
+    if kind == "polyline":
+        p = draw(polylines(rnd, min_edges=2))
     else:
-        p = draw(scaled_trisurf(max_faces=40))
-        p["kind"] = "surface"
-    p["salt"] = draw(st.integers(0, 10 ** 6))       # only varies the seed derived from the case
+        p = draw(scaled_trisurf(rnd, max_faces=40))
+    p["kind"] = kind
+    p["salt"] = rnd.randrange(10 ** 6)       # only varies the seed derived from the case
     return p
 
 
@@ -517,8 +557,8 @@ def fn_stat(case, ctx):
 
 @st.composite
 def stat_ball_case(draw):
-    zero = draw(st.integers(0, 3)) == 0
-    return {"center": [0.0, 0.0, 0.0] if zero else [draw(CENTER_COMP) for _ in range(3)], "radius": draw(RADIUS), "salt": draw(st.integers(0, 10 ** 6))}
+    rnd = mixer(draw)
+    return {"center": draw_center(draw, rnd), "radius": draw_radius(draw, rnd), "salt": rnd.randrange(10 ** 6)}
 
 
 def fn_stat_ball(case, ctx):
@@ -552,33 +592,35 @@ T_OUT = st.one_of(st.sampled_from([-1e-9, 1.000000001, -1.0, 2.0, -0.5, 1.5, -1,
                   st.floats(1.0, 10.0, exclude_min=True), st.floats(-10.0, 0.0, exclude_max=True).filter(lambda x: x < 0))
 
 
-@st.composite
-def control_point(draw, dim, style, off):
-    if style == "int":
-        return [float(draw(st.integers(-6, 6))) for _ in range(dim)]
-    if style == "unit":
-        return [sig6(draw(st.floats(-1, 1))) for _ in range(dim)]
-    return [sig6(off[k] + draw(signed_logmag())) for k in range(dim)]
+def control_net(rnd, shape):
+    """control points from the PRNG: small integers / unit box / log-uniform magnitudes / the latter around a far offset"""
+    dim = rnd.choice([2, 3])
+    style = rnd.choice(["int", "unit", "log", "log-offset"])
+    off = [rslog(rnd) for _ in range(dim)] if style == "log-offset" else [0.0] * dim
 
-
-def net_style(draw):
-    dim = draw(st.sampled_from([2, 3]))
-    style = draw(st.sampled_from(["int", "unit", "log", "log-offset"]))
-    off = [draw(signed_logmag()) for _ in range(dim)] if style == "log-offset" else [0.0] * dim
-    return dim, style, off
+    def point():
+        if style == "int":
+            return [float(rnd.randint(-6, 6)) for _ in range(dim)]
+        if style == "unit":
+            return [sig6(rnd.uniform(-1, 1)) for _ in range(dim)]
+        return [sig6(off[k] + rslog(rnd)) for k in range(dim)]
+    if len(shape) == 1:
+        return [point() for _ in range(shape[0])], style
+    return [[point() for _ in range(shape[1])] for _ in range(shape[0])], style
 
 
 @st.composite
 def curve_case(draw):
-    dim, style, off = net_style(draw)
-    deg = draw(st.integers(0, 6))
-    P = [draw(control_point(dim, style, off)) for _ in range(deg + 1)]
+    rnd = mixer(draw)
+    deg = rnd.choice([0, 1, 2, 3, 4, 5, 6, draw(st.integers(0, 6))])
+    P, style = control_net(rnd, (deg + 1,))
     custom = None
-    if draw(st.integers(0, 4)) == 0:
+    if rnd.random() < 0.2:
         custom = sorted(draw(st.lists(T_IN, min_size=2, max_size=9)))
-    return {"P": P, "style": style, "ts_in": draw(st.lists(T_IN, min_size=1, max_size=6)), "ts_out": draw(st.lists(T_OUT, max_size=3)),
-            "n": draw(st.integers(2, 9)), "custom": custom, "dir_seed": draw(st.integers(0, 10 ** 6)),
-            "ctor": draw(st.sampled_from(["list", "numpy", "vec"]))}
+    ts = [sig6(rnd.random()) for _ in range(rnd.randint(1, 3))]
+    return {"P": P, "style": style, "ts_in": ts + draw(st.lists(T_IN, max_size=4)), "ts_out": draw(st.lists(T_OUT, max_size=3)),
+            "n": rnd.randint(2, 9), "custom": custom, "dir_seed": rnd.randrange(10 ** 6),
+            "ctor": rnd.choice(["list", "numpy", "vec"])}
 
 
 def directions(seed, dim):
@@ -679,14 +721,15 @@ def fn_curve(case, ctx):
 
 @st.composite
 def patch_case(draw):
-    dim, style, off = net_style(draw)
-    m, n = draw(st.integers(0, 4)), draw(st.integers(0, 4))
-    P = [[draw(control_point(dim, style, off)) for _ in range(n + 1)] for _ in range(m + 1)]
-    n1 = draw(st.integers(2, 9))
-    n2 = n1 if draw(st.integers(0, 3)) == 0 else draw(st.integers(2, 9))
-    return {"P": P, "style": style, "uv_in": draw(st.lists(st.tuples(T_IN, T_IN).map(list), min_size=1, max_size=5)),
+    rnd = mixer(draw)
+    m, n = rnd.randint(0, 4), rnd.randint(0, 4)
+    P, style = control_net(rnd, (m + 1, n + 1))
+    n1 = rnd.randint(2, 9)
+    n2 = n1 if rnd.random() < 0.2 else rnd.randint(2, 9)
+    uv = [[sig6(rnd.random()), sig6(rnd.random())] for _ in range(rnd.randint(1, 3))]
+    return {"P": P, "style": style, "uv_in": uv + draw(st.lists(st.tuples(T_IN, T_IN).map(list), max_size=3)),
             "uv_out": draw(st.lists(st.one_of(st.tuples(T_OUT, T_IN), st.tuples(T_IN, T_OUT), st.tuples(T_OUT, T_OUT)).map(list), max_size=3)),
-            "n1": n1, "n2": n2, "dir_seed": draw(st.integers(0, 10 ** 6)), "ctor": draw(st.sampled_from(["list", "numpy", "vec"]))}
+            "n1": n1, "n2": n2, "dir_seed": rnd.randrange(10 ** 6), "ctor": rnd.choice(["list", "numpy", "vec"])}
 
 
 def fn_patch(case, ctx):
@@ -808,7 +851,8 @@ SUBCHECKS = [
     SubCheck("sphere_ball", round_case(), fn_round, quick=1200, thorough=4000),
     SubCheck("polyline", polyline_case(), fn_polyline, quick=500, thorough=2000),
     SubCheck("surface", surface_case(), fn_surface, quick=400, thorough=1500),
-    SubCheck("stat_share", stat_case(), fn_stat, quick=48, thorough=60),
+    SubCheck("stat_share_polyline", stat_case("polyline"), fn_stat, quick=32, thorough=40),
+    SubCheck("stat_share_surface", stat_case("surface"), fn_stat, quick=32, thorough=40),
     SubCheck("stat_ball_radial", stat_ball_case(), fn_stat_ball, quick=48, thorough=60),
     SubCheck("bezier_curve", curve_case(), fn_curve, quick=1000, thorough=4000),
     SubCheck("bezier_patch", patch_case(), fn_patch, quick=700, thorough=3000),
